@@ -1,3 +1,4 @@
+import GoaVerif.Model.FullPaths
 import GoaVerif.Lemmas.Mux
 /-!
 # C16 — router: property theorems
@@ -151,5 +152,27 @@ example : Clean [117, 115, 101, 114, 115] := by
   intro c hc; simp at hc; rcases hc with rfl | rfl | rfl | rfl | rfl <;> decide
 
 example : pathEscape [97, 47, 98, 32, 37] = [97, 37, 50, 70, 98, 37, 50, 48, 37, 50, 53] := by decide
+
+/-! ### The patterns a route is mounted under (`Model/FullPaths.lean`, tied by `rtmux fullpaths` ↔ `drv_mux fullpaths`) -/
+section fullpaths
+open GoaVerif.FullPaths
+
+/-- one pattern per base path of the service, in order -/
+theorem routePaths_length (r : String) (bs : List String) : (routePaths r bs).length = bs.length := by
+  simp [routePaths]
+
+/-- **every base path is decided on its own**: the pattern under one base path (trailing slash included) does not depend on
+    the base paths listed before or after it -/
+theorem routePaths_per_base (r : String) (bs cs : List String) :
+    routePaths r (bs ++ cs) = routePaths r bs ++ routePaths r cs := by
+  simp [routePaths]
+
+theorem routePaths_nth (r : String) (bs : List String) (i : Nat) (h : i < bs.length) :
+    (routePaths r bs)[i]'(by simpa [routePaths] using h) = routePath r bs[i] := by
+  simp [routePaths]
+
+-- concrete values (e.g. `routePaths "/" ["/a/", "/b", "/c/{id}"] = ["/a/", "/b", "/c/{id}"]`) are exercised by the driver: `String.splitOn`
+-- does not reduce in the kernel
+end fullpaths
 
 end GoaVerif.Props.C16
